@@ -204,17 +204,30 @@ fn from_tx_case(out: &mut Out, t: &Transaction, k: bool) {
     let outs_nn = t.output.iter().all(out_non_null);
     let nonces_ok = t.output.iter().all(nonce_round_trips);
     let detail = || format!("tx={} back={}", hex(&b), match &back { Ok(x) => hex(&serialize(x)), Err(e) => pd::err_name(e) });
-    // the characterisation is exact, on every generated class
-    out.s("extract_from_tx_class_exact", same == (ins_ok && outs_nn && nonces_ok), detail);
+    // what the property demands is one direction only: inside the class the round trip holds. The converse (outside
+    // the class it fails) describes today's known defect classes; a repair of those must not raise an alarm here, so
+    // it is only counted (the K comparison with the model, which transcribes the code as it is, is what notices a
+    // change of behaviour there)
+    out.s("extract_from_tx_class_exact", !(ins_ok && outs_nn && nonces_ok) || same, detail);
+    if !(ins_ok && outs_nn && nonces_ok) && same {
+        out.count("fromtx.outside_class_yet_round_trips");
+    }
     if ins_ok && outs_nn {
         if nonces_ok {
             out.count("fromtx.class.wellformed");
             out.s("extract_from_tx", same, detail);
         } else if !same {
             // recorded finding: the nonce of an output has no carrier (explicit nonce, or a
-            // confidential nonce on an output that is not partially blinded)
-            out.count("fromtx.class.F12bc");
-            out.s_known("extract_from_tx", "F12bc", detail);
+            // confidential nonce on an output that is not partially blinded). The class is exactly: extraction
+            // SUCCEEDS and the result differs from the original in output nonces only — anything else is not it
+            let only_nonces = matches!(&back, Ok(x) if x.version == t.version && x.lock_time == t.lock_time && x.input == t.input && x.output.len() == t.output.len()
+                && x.output.iter().zip(t.output.iter()).all(|(a, b)| a.asset == b.asset && a.value == b.value && a.script_pubkey == b.script_pubkey && a.witness == b.witness));
+            if only_nonces {
+                out.count("fromtx.class.F12bc");
+                out.s_known("extract_from_tx", "F12bc", detail);
+            } else {
+                out.s("extract_from_tx", false, detail);
+            }
         }
     } else if outs_nn && nonces_ok && !same && t.input.iter().all(|i| in_round_trips(i) || idx_clash(i)) {
         // recorded finding: index 2^30-1 with both flags is stored as 0xffffffff, the flag-less
